@@ -342,7 +342,10 @@ def run_impl(scn):
         flush = [3, 7, 10, 25][int(core.digest(pub(scn)), 16) // 5 % 4]
     import_searchkit()
     from searchkit import task as _TK
-    old_flush = _TK.NUM_BUFFERED_RESULTS
+    # (a tree in which the constant has another name simply keeps its own threshold)
+    old_flush = getattr(_TK, 'NUM_BUFFERED_RESULTS', None)
+    if not isinstance(old_flush, int):
+        flush = None
     try:
         if flush:
             _TK.NUM_BUFFERED_RESULTS = flush
@@ -351,7 +354,8 @@ def run_impl(scn):
             fs = built.searcher()
             return run_searcher(built, fs, scenario_K(scn))
     finally:
-        _TK.NUM_BUFFERED_RESULTS = old_flush
+        if flush:
+            _TK.NUM_BUFFERED_RESULTS = old_flush
         shutil.rmtree(tmpdir, ignore_errors=True)
 
 
